@@ -92,6 +92,14 @@ def main():
                 if req.get("cmd") == "spec":
                     send({"id": req.get("id"), "spec": env.spec})
                     continue
+                if req.get("cmd") == "typing":
+                    ex = Executor(env.world.root, {})
+                    try:
+                        obs = ex.obs(X.seq(*[X.attr(X.call("Sid", st), "type") for st in req["strings"]]))
+                    finally:
+                        ex.close()
+                    send({"id": req.get("id"), "types": [o if isinstance(o, str) else "" for o in obs["~seq"]]})
+                    continue
                 profile = get_profile(req["profile"])
                 rp = req.get("replay")
                 if rp is not None and rp.get("generate"):
